@@ -211,22 +211,33 @@ Section T.
       rewrite EL. split; [exact Hz|]. split; [exact HL | exact HF].
   Qed.
 
-  Lemma set_T o n d h : Tinv o h -> wf_tag (n, d) ->
-    exists o' r h', sk_set_tag sc o n d h = Done (o', r, h') /\ Tinv o' h'.
-  Proof.
-    intros HT Hw. unfold sk_set_tag. destruct (t_len (o_tags o) =? 0).
-    - cbn [bind]. change (0 =? 0) with true. cbv iota. apply quick_add_T; assumption.
-    - destruct (remove_T o n h HT) as (o1 & r1 & h1 & R & T1). rewrite R. cbn [bind].
-      destruct (r1 =? 0).
-      + apply quick_add_T; assumption.
-      + exists o1, r1, h1. split; [reflexivity | exact T1].
-  Qed.
-
   Lemma read_T o h : Tinv o h -> sk_read o h = Done tt.
   Proof.
     intros (HI & Hz & HL & HF). unfold sk_read. destruct (t_len (o_tags o) =? 0) eqn:E0; [reflexivity|].
     destruct (o_ptr o) as [b|] eqn:HP; [|exfalso; assert (t_len (o_tags o) = 0) by (apply Hz; reflexivity); lia].
     apply deref_some. rewrite HL. left. reflexivity.
+  Qed.
+
+  (* check (nothing allocated), add, then remove the old element: every stage keeps the invariant *)
+  Lemma set_T o n d h : Tinv o h -> wf_tag (n, d) ->
+    exists o' r h', sk_set_tag sc o n d h = Done (o', r, h') /\ Tinv o' h'.
+  Proof.
+    intros HT Hw. unfold sk_set_tag.
+    assert (P : exists c, (if t_len (o_tags o) =? 0 then Done 0
+                           else let* _ := sk_read o h in check_tag (o_tags o) n) = Done c).
+    { destruct (t_len (o_tags o) =? 0); [eexists; reflexivity|].
+      rewrite (read_T o h HT). cbn [bind].
+      destruct HT as (HI & _). destruct HI as (l & W & B & Ln). rewrite B in Ln.
+      destruct (check_tag_enc (o_tags o) l n W B Ln) as (c & Cc & _). exists c. exact Cc. }
+    destruct P as (c & P). rewrite P. cbn [bind].
+    destruct (c <? 0).
+    - exists o, c, h. split; [reflexivity | exact HT].
+    - destruct (quick_add_T o n d h HT Hw) as (o1 & r1 & h1 & Q & T1). rewrite Q. cbn [bind].
+      destruct (negb (r1 =? 0)).
+      + exists o1, r1, h1. split; [reflexivity | exact T1].
+      + destruct (0 <? c).
+        * apply remove_T. exact T1.
+        * exists o1, 0, h1. split; [reflexivity | exact T1].
   Qed.
 
   Lemma step_T o op h : Tinv o h -> wf_op op ->
@@ -530,28 +541,41 @@ Proof.
   - intros H; inversion H; subst. right. split; reflexivity.
 Qed.
 
-Lemma set_partial : forall sc o h num data o' r h',
+(* the setters are failure-atomic: the old element is removed only after the new one has been stored, and
+   that removal cannot fail (its shrinking realloc may, which is still success) *)
+Lemma set_atomic : forall sc o h num data o' r h',
   tags_inv (o_tags o) -> ptr_inv o h -> wf_tag (num, data) ->
   sk_set_tag sc o num data h = Done (o', r, h') ->
   (r = 0 /\ set_tag (o_tags o) num data = Done (o_tags o', 0)) \/
-  (r < 0 /\ (o_tags o' = o_tags o \/ exists t1, remove_tag (o_tags o) num = Done (t1, 0) /\ o_tags o' = t1)).
+  (r < 0 /\ o_tags o' = o_tags o).
 Proof.
-  intros sc o h num data o' r h' _ _ _. unfold sk_set_tag, set_tag.
-  destruct (t_len (o_tags o) =? 0).
-  - cbn [bind]. change (0 =? 0) with true. cbv iota. intros H.
-    destruct (quick_add_cases _ _ _ _ _ _ _ _ H) as [(R & T)|(R & T & K)].
-    + left. split; [exact R|]. rewrite T. reflexivity.
-    + right. subst o' r. split; [unfold Alloc.ENOMEM; lia|]. left. reflexivity.
-  - destruct (sk_remove_tag sc o num h) as [[[o1 r1] h1]| |] eqn:RM; cbn [bind]; try discriminate.
-    destruct (remove_cases _ _ _ _ _ _ _ RM) as (t' & R & T). rewrite R. cbn [bind].
-    destruct (r1 =? 0) eqn:E.
-    + apply Z.eqb_eq in E. subst r1. intros H.
-      destruct (quick_add_cases _ _ _ _ _ _ _ _ H) as [(R2 & T2)|(R2 & T2 & K)].
-      * left. split; [exact R2|]. rewrite T2, T. reflexivity.
-      * right. subst o' r. split; [unfold Alloc.ENOMEM; lia|]. right. exists t'. split; [reflexivity | exact T].
-    + intros H; inversion H; subst. apply Z.eqb_neq in E.
-      destruct (remove_tag_codes _ _ _ _ R) as [Z0|[Z0 Z1]]; [contradiction|].
-      right. split; [rewrite Z0; unfold TagIter.EINVAL; lia|]. left. exact Z1.
+  intros sc o h num data o' r h' (l & W & B & Ln) _ Hw. rewrite B in Ln.
+  destruct (quick_add_enc (o_tags o) l num data Hw B Ln) as (s1 & Q1 & Qb & Ql).
+  unfold sk_set_tag, set_tag. rewrite Q1.
+  assert (PC : forall c,
+    (if t_len (o_tags o) =? 0 then Done 0 else let* _ := sk_read o h in check_tag (o_tags o) num) = Done c ->
+    (if t_len (o_tags o) =? 0 then Done 0 else check_tag (o_tags o) num) = Done c).
+  { intros c. destruct (t_len (o_tags o) =? 0); [auto|].
+    destruct (sk_read o h) as [[]| |]; cbn [bind]; auto; discriminate. }
+  destruct (if t_len (o_tags o) =? 0 then Done 0 else let* _ := sk_read o h in check_tag (o_tags o) num)
+    as [c| |] eqn:P; cbn [bind]; try discriminate.
+  rewrite (PC c eq_refl). cbn [bind].
+  destruct (c <? 0) eqn:Cn.
+  { intros H; inversion H; subst. right. split; [lia | reflexivity]. }
+  destruct (sk_quick_add sc o num data h) as [[[o1 r1] h1]| |] eqn:Q; cbn [bind]; try discriminate.
+  change (negb (0 =? 0)) with false. cbv iota.
+  destruct (quick_add_cases _ _ _ _ _ _ _ _ Q) as [(R1 & T1)|(R1 & T1 & _)].
+  - subst r1. rewrite Q1 in T1. cbn [fst] in T1. change (negb (0 =? 0)) with false. cbv iota.
+    destruct (0 <? c).
+    + intros H. destruct (remove_cases _ _ _ _ _ _ _ H) as (t' & R & T). rewrite T1 in R.
+      destruct (remove_tag_enc s1 (l ++ [(num, data)]) num (wf_tags_snoc _ _ W Hw) Qb Ql)
+        as (s' & l' & R' & _).
+      assert (E0 : match l ++ [(num, data)] with [] => - TagIter.EINVAL | _ :: _ => 0 end = 0)
+        by (destruct l; reflexivity).
+      rewrite E0 in R'. rewrite R' in R. inversion R; subst. left. split; [reflexivity | exact R'].
+    + intros H. injection H as E1 E2 E3. subst o' r h'. left. split; [reflexivity|]. rewrite T1. reflexivity.
+  - subst r1 o1. change (negb (- Alloc.ENOMEM =? 0)) with true. cbv iota.
+    intros H; inversion H; subst. right. split; [unfold Alloc.ENOMEM; lia | reflexivity].
 Qed.
 
 (* the recorded length is a length (0 <= d_len d; with a negative d_len and empty data the routine would
